@@ -234,3 +234,19 @@ pub fn pretty(ts: TokenStream) -> Result<String, String> {
     let file = syn::parse2::<syn::File>(ts).map_err(|e| e.to_string())?;
     Ok(prettyplease::unparse(&file))
 }
+
+/// (name, digest of the item's tokens) for every top-level struct/enum
+pub fn def_digests(ts: TokenStream) -> Result<Vec<(String, String)>, String> {
+    let file = syn::parse2::<syn::File>(ts).map_err(|e| e.to_string())?;
+    let mut out = Vec::new();
+    for it in &file.items {
+        let (name, toks) = match it {
+            syn::Item::Struct(s) => (s.ident.to_string(), norm_tokens(&s.to_token_stream())),
+            syn::Item::Enum(e) => (e.ident.to_string(), norm_tokens(&e.to_token_stream())),
+            _ => continue,
+        };
+        out.push((name, crate::doc::fnv(&toks)));
+    }
+    out.sort();
+    Ok(out)
+}
